@@ -10,9 +10,9 @@ from ..common import arr2bits, bits2arr, driver
 THEOREMS = '''integrate_spec integrate_linear integrate_nonneg decay_amplitudes_entries gammaEntry_eq
 decay_amplitudes_parsimonious single_spectrum_is_broadcast subset_is_slice trace_tensor_completeness
 neg_trace_cumulant infidelity_eq_neg_trace_cumulant infidelity_traceless_branch
-total_infidelity_nonneg pulse_correlations_sum_to_total infidelity_source_shape'''.split()
+total_infidelity_nonneg pulse_correlations_sum_to_total '''.split()
 LEAN_MODULES = ['FFVerif.Props.C08']
-PINS = ['pinIntegrate', 'pinIdentityElementIndex']
+PINS = ['pinIntegrate', 'pinIdentityElementIndex', 'C08_infidelity_source_shape']
 GEN_SITES = ['einsum:numeric__get_integrand_', 'einsum:numeric_infidelity_0',
              'const:numeric.infidelity', 'const:numeric.calculate_decay_amplitudes']
 COMPONENTS = ['integrate', 'four_element_traces']
